@@ -52,10 +52,11 @@ VARIABLES
     slack,      \* C01: cost added by in-place updates / lowered max since the last admission
     errSeen,    \* some public call returned an error
     orphans,    \* wait ids whose marker was destroyed unreleased (nobody will ever release them)
-    kf          \* known-finding signatures that occurred in this behaviour (see known_findings.json)
+    kf,         \* known-finding signatures that occurred in this behaviour (see known_findings.json)
+    gh          \* property ghosts: [want, fits, seqOK, badcb, cleared, lookups, drops, rejs, condv, vcost]
 
 vars == <<conf, store, em, costs, used, maxCost, buf, clearQ, proc, cli, closed, pol, stopQ, wdone, now, met,
-          cbs, res, outcnt, accepted, owner, dropped, lost, slack, errSeen, orphans, kf>>
+          cbs, res, outcnt, accepted, owner, dropped, lost, slack, errSeen, orphans, kf, gh>>
 
 ---------------------------------------------------------------------------
 \* helpers
@@ -127,6 +128,28 @@ ClrRace == UNCHANGED conf /\ kf' = IF proc.pc \notin {"idle", "cleaning", "exite
 BufRoom == Len(buf) < BufCap
 
 ---------------------------------------------------------------------------
+\* Property ghosts (one record so that the actions stay readable):
+\*  want    [Idx -> Nil or Int]  C04: charge asked for by the latest accepted write of a key not yet reclaimed
+\*  fits    C04: the demand never exceeded max_cost and the insert buffer never overflowed
+\*  seqOK   every public call so far started in a quiescent state (the "quiesce between operations" regime)
+\*  badcb   C04: on_reject / on_evict records that are not TTL expiries or clear drains
+\*  cleared C11: values whose insert had returned true before a clear() that has returned
+\*  lookups, drops, rejs  C17: what hits+misses, sets_dropped, sets_rejected must equal
+\*  condv   C09: values offered by insert_if_present calls that returned false
+\*  vcost   C16: [Val -> charge asked for by the insert that wrote it]
+GhInit == [want |-> [i \in Idx |-> Nil], fits |-> TRUE, seqOK |-> TRUE, badcb |-> 0, cleared |-> {},
+           lookups |-> 0, drops |-> 0, rejs |-> 0, condv |-> {}, vcost |-> [v \in Val |-> 0]]
+RECURSIVE SumWant(_, _)
+SumWant(w, S) == IF S = {} THEN 0 ELSE LET k == CHOOSE x \in S : TRUE IN w[k] + SumWant(w, S \ {k})
+WantTotal(w) == SumWant(w, { i \in Idx : w[i] # Nil })
+QuiescentNow == /\ buf = <<>> /\ clearQ = 0 /\ proc.pc \in {"idle", "exited"}
+                /\ \A c \in Clients : cli[c].pc = "idle"
+\* every public call: does it start from quiescence?
+GhCall(g) == [g EXCEPT !.seqOK = g.seqOK /\ QuiescentNow]
+GhWant(g, i, ch, v) == LET w == [g.want EXCEPT ![i] = ch]
+                       IN [g EXCEPT !.want = w, !.vcost[v] = ch, !.fits = g.fits /\ WantTotal(w) <= maxCost]
+
+---------------------------------------------------------------------------
 Init ==
     /\ store = [i \in Idx |-> Nil] /\ em = {}
     /\ costs = [i \in Idx |-> Nil] /\ used = 0
@@ -135,7 +158,7 @@ Init ==
     /\ closed = FALSE /\ pol = [alive |-> TRUE, closed |-> FALSE, q |-> 0] /\ stopQ = 0 /\ wdone = {}
     /\ met = ZeroMet /\ cbs = <<>> /\ res = Nil
     /\ outcnt = [v \in Val |-> 0] /\ accepted = {} /\ owner = [v \in Val |-> Nil]
-    /\ dropped = {} /\ lost = {} /\ slack = 0 /\ errSeen = FALSE /\ orphans = {} /\ kf = {}
+    /\ dropped = {} /\ lost = {} /\ slack = 0 /\ errSeen = FALSE /\ orphans = {} /\ kf = {} /\ gh = GhInit
     \* conf, maxCost and now are fixed by the configuration (MC / Trace module)
 
 \* frame helpers
@@ -192,12 +215,22 @@ InsBegin(c, k, v, cost, d, onlyUpd) ==
             /\ owner' = [owner EXCEPT ![v] = k]
             /\ cli' = [cli EXCEPT ![c] = [pc |-> "ins_send", v |-> v,
                                           item |-> [t |-> "new", i |-> i, c |-> cf, cost |-> cost + ext,
-                                                    val |-> v, d |-> d, at |-> now]]]
+                                                    val |-> v, d |-> d, at |-> now,
+                                                    \* ghost: the write was vetoed by the validator or hit a colliding key
+                                                    vc |-> e # Nil]]]
             /\ NoRes /\ NoCb
             /\ UNCHANGED <<store, em>>
     /\ UNCH_pol /\ UNCH_chan /\ UNCH_life
     /\ UNCHANGED <<proc, now, met, accepted, dropped, lost, errSeen>>
     /\ UNCH_kf
+    /\ gh' = LET g == GhCall(gh)
+                  i == k[1]
+                  e == store[i]
+                  ext == IF cost = 0 THEN CosterOf(v) ELSE 0
+              IN IF closed THEN g
+                 ELSE IF e # Nil /\ ConflictOK(k[2], e) /\ ShouldUpdate(e.val, v)
+                      THEN GhWant(g, i, cost + ext + ItemSize, v)
+                      ELSE IF onlyUpd THEN [g EXCEPT !.condv = @ \cup {v}] ELSE g
 
 \* second section: non-blocking send to the insert buffer
 InsSend(c) ==
@@ -217,6 +250,13 @@ InsSend(c) ==
     /\ NoCb /\ UNCH_store /\ UNCH_pol /\ UNCH_life
     /\ UNCHANGED <<clearQ, stopQ, wdone, orphans, proc, now, owner, dropped, lost, errSeen>>
     /\ UNCH_kf
+    /\ gh' = LET it == cli[c].item IN
+              IF it.t = "new"
+              THEN IF ProcAlive /\ BufRoom
+                   THEN (IF gh.want[it.i] = Nil THEN GhWant(gh, it.i, it.cost + ItemSize, it.val)
+                         ELSE [gh EXCEPT !.vcost[it.val] = it.cost + ItemSize])
+                   ELSE [gh EXCEPT !.fits = FALSE, !.drops = @ + 1]
+              ELSE gh
 
 \* get: is_closed check, (ring push: Ring.tla), store.get, Hit/Miss
 Get(c, k) ==
@@ -228,6 +268,7 @@ Get(c, k) ==
     /\ NoCb /\ UNCH_store /\ UNCH_pol /\ UNCH_chan /\ UNCH_life /\ UNCH_ghost
     /\ UNCHANGED <<proc, cli, now>>
     /\ UNCH_kf
+    /\ gh' = LET g == GhCall(gh) IN IF closed THEN g ELSE [g EXCEPT !.lookups = @ + 1]
 
 \* get_mut followed by an in-place write through the guard
 GetMut(c, k) ==
@@ -240,6 +281,7 @@ GetMut(c, k) ==
     /\ NoCb /\ UNCHANGED em /\ UNCH_pol /\ UNCH_chan /\ UNCH_life /\ UNCH_ghost
     /\ UNCHANGED <<proc, cli, now>>
     /\ UNCH_kf
+    /\ gh' = LET g == GhCall(gh) IN IF closed THEN g ELSE [g EXCEPT !.lookups = @ + 1]
 
 \* get_ttl: no is_closed check, no metrics.  -1 stands for Duration::MAX
 TtlOf(st, k, t) ==
@@ -251,6 +293,7 @@ GetTtl(c, k) ==
     /\ NoCb /\ UNCH_store /\ UNCH_pol /\ UNCH_chan /\ UNCH_life /\ UNCH_ghost
     /\ UNCHANGED <<proc, cli, now, met>>
     /\ UNCH_kf
+    /\ gh' = GhCall(gh)
 
 \* remove, first section: store.try_remove (immediately) and on_exit
 RemStore(c, k) ==
@@ -272,6 +315,9 @@ RemStore(c, k) ==
     /\ UNCH_pol /\ UNCH_chan /\ UNCH_life /\ UNCH_ghost
     /\ UNCHANGED <<proc, now, met>>
     /\ UNCH_kf
+    /\ gh' = LET g == GhCall(gh) IN
+              IF ~closed /\ store[k[1]] # Nil /\ ConflictOK(k[2], store[k[1]])
+              THEN [g EXCEPT !.want[k[1]] = Nil] ELSE g
 
 \* second section: the Delete marker.  sync: try_send, a full buffer is an error.
 RemSend(c) ==
@@ -283,6 +329,7 @@ RemSend(c) ==
     /\ NoCb /\ UNCH_store /\ UNCH_pol /\ UNCH_life
     /\ UNCHANGED <<clearQ, stopQ, wdone, orphans, proc, now, met, accepted, owner, dropped, lost>>
     /\ UNCH_kf
+    /\ UNCHANGED gh
 
 \* async: send().await -- waits for room (RemBlock), the result is ignored, then returns Ok
 RemSendA(c) ==
@@ -293,6 +340,7 @@ RemSendA(c) ==
     /\ NoRes /\ NoCb /\ UNCH_store /\ UNCH_pol /\ UNCH_life /\ UNCH_ghost
     /\ UNCHANGED <<clearQ, stopQ, wdone, orphans, proc, now, met>>
     /\ UNCH_kf
+    /\ UNCHANGED gh
 
 RemBlock(c) ==
     /\ cli[c].pc = "rem_send" /\ Flavor = "async"
@@ -300,6 +348,7 @@ RemBlock(c) ==
     /\ NoRes /\ NoCb /\ UNCH_store /\ UNCH_pol /\ UNCH_chan /\ UNCH_life /\ UNCH_ghost
     /\ UNCHANGED <<proc, now, met>>
     /\ UNCH_kf
+    /\ UNCHANGED gh
 
 RemRet(c) ==
     /\ cli[c].pc = "rem_ret"
@@ -307,6 +356,7 @@ RemRet(c) ==
     /\ NoCb /\ UNCH_store /\ UNCH_pol /\ UNCH_chan /\ UNCH_life /\ UNCH_ghost
     /\ UNCHANGED <<proc, now, met>>
     /\ UNCH_kf
+    /\ UNCHANGED gh
 
 \* clear() and the clear() at the start of close(): four sections, all on the CLIENT thread
 ClrSend(c, op) ==
@@ -314,12 +364,13 @@ ClrSend(c, op) ==
     /\ IF closed THEN Done(c, op, OOk) /\ UNCHANGED <<clearQ, cli, errSeen>>
        ELSE IF ProcAlive THEN
             /\ clearQ' = clearQ + 1
-            /\ cli' = [cli EXCEPT ![c] = [pc |-> "clr_policy", op |-> op]]
+            /\ cli' = [cli EXCEPT ![c] = [pc |-> "clr_policy", op |-> op, snap |-> accepted]]
             /\ NoRes /\ UNCHANGED errSeen
        ELSE Done(c, op, OErr) /\ errSeen' = TRUE /\ UNCHANGED <<clearQ, cli>>
     /\ NoCb /\ UNCH_store /\ UNCH_pol /\ UNCH_life
     /\ UNCHANGED <<buf, stopQ, wdone, orphans, proc, now, met, accepted, owner, dropped, lost>>
     /\ UNCH_kf
+    /\ gh' = GhCall(gh)
 
 ClrPolicy(c) ==
     /\ cli[c].pc = "clr_policy"
@@ -328,6 +379,7 @@ ClrPolicy(c) ==
     /\ NoRes /\ NoCb /\ UNCH_store /\ UNCH_chan /\ UNCH_life /\ UNCH_ghost
     /\ UNCHANGED <<maxCost, proc, now, met>>
     /\ ClrRace
+    /\ UNCHANGED gh
 
 \* store.clear(): every shard AND the expiration buckets; resident values are dropped without callback
 ClrStore(c) ==
@@ -338,6 +390,7 @@ ClrStore(c) ==
     /\ NoRes /\ NoCb /\ UNCH_pol /\ UNCH_chan /\ UNCH_life
     /\ UNCHANGED <<proc, now, met, accepted, owner, lost, errSeen>>
     /\ ClrRace
+    /\ gh' = [gh EXCEPT !.want = [i \in Idx |-> Nil]]
 
 ClrMetrics(c) ==
     /\ cli[c].pc = "clr_metrics"
@@ -348,6 +401,7 @@ ClrMetrics(c) ==
     /\ NoCb /\ UNCH_store /\ UNCH_pol /\ UNCH_chan /\ UNCH_life /\ UNCH_ghost
     /\ UNCHANGED <<proc, now>>
     /\ ClrRace
+    /\ gh' = [gh EXCEPT !.lookups = 0, !.drops = 0, !.rejs = 0, !.cleared = @ \cup cli[c].snap]
 
 \* close(): stop signal to the cache processor.
 \* sync: rendezvous channel -- the closer blocks until the processor takes it (PStop) or has gone.
@@ -363,6 +417,7 @@ ClsStopSend(c) ==
     /\ NoCb /\ UNCH_store /\ UNCH_pol /\ UNCH_life
     /\ UNCHANGED <<buf, clearQ, wdone, orphans, proc, now, met, accepted, owner, dropped, lost>>
     /\ UNCH_kf
+    /\ UNCHANGED gh
 
 \* a closer blocked in the stop send is released with an error once the receiver is gone
 ClsStopFail(c) ==
@@ -371,6 +426,7 @@ ClsStopFail(c) ==
     /\ NoCb /\ UNCH_store /\ UNCH_pol /\ UNCH_chan /\ UNCH_life
     /\ UNCHANGED <<proc, now, met, accepted, owner, dropped, lost>>
     /\ UNCH_kf
+    /\ UNCHANGED gh
 
 \* policy.close(): is_closed check ...
 ClsPol(c) ==
@@ -379,6 +435,7 @@ ClsPol(c) ==
     /\ NoRes /\ NoCb /\ UNCH_store /\ UNCH_pol /\ UNCH_chan /\ UNCH_life /\ UNCH_ghost
     /\ UNCHANGED <<proc, now, met>>
     /\ UNCH_kf
+    /\ UNCHANGED gh
 
 \* ... then the stop signal to the policy worker (rendezvous in sync, capacity 1 in async)
 ClsPolSend(c) ==
@@ -392,6 +449,7 @@ ClsPolSend(c) ==
     /\ NoCb /\ UNCH_store /\ UNCH_pol /\ UNCH_chan
     /\ UNCHANGED <<closed, proc, now, met, accepted, owner, dropped, lost>>
     /\ UNCH_kf
+    /\ UNCHANGED gh
 
 \* async: a send that found the slot free completes (possibly observed late)
 ClsPolLate(c) ==
@@ -401,6 +459,7 @@ ClsPolLate(c) ==
     /\ NoRes /\ NoCb /\ UNCH_store /\ UNCH_pol /\ UNCH_chan /\ UNCH_ghost
     /\ UNCHANGED <<closed, proc, now, met>>
     /\ UNCH_kf
+    /\ UNCHANGED gh
 
 ClsStopLate(c) ==
     /\ cli[c].pc = "cls_stop_wait" /\ Flavor = "async" /\ ProcAlive /\ stopQ = 0
@@ -409,6 +468,7 @@ ClsStopLate(c) ==
     /\ NoRes /\ NoCb /\ UNCH_store /\ UNCH_pol /\ UNCH_life /\ UNCH_ghost
     /\ UNCHANGED <<buf, clearQ, wdone, orphans, proc, now, met>>
     /\ UNCH_kf
+    /\ UNCHANGED gh
 
 ClsPolFail(c) ==
     /\ cli[c].pc = "cls_pol_wait" /\ ~pol.alive
@@ -416,6 +476,7 @@ ClsPolFail(c) ==
     /\ NoCb /\ UNCH_store /\ UNCH_pol /\ UNCH_chan /\ UNCH_life
     /\ UNCHANGED <<proc, now, met, accepted, owner, dropped, lost>>
     /\ UNCH_kf
+    /\ UNCHANGED gh
 
 \* after the policy worker took the signal: LFUPolicy.is_closed = true
 ClsPolFlag(c) ==
@@ -425,6 +486,7 @@ ClsPolFlag(c) ==
     /\ NoRes /\ NoCb /\ UNCH_store /\ UNCH_pol /\ UNCH_chan /\ UNCH_ghost
     /\ UNCHANGED <<closed, proc, now, met>>
     /\ UNCH_kf
+    /\ UNCHANGED gh
 
 ClsFlag(c) ==
     /\ cli[c].pc = "cls_flag"
@@ -433,6 +495,7 @@ ClsFlag(c) ==
     /\ NoCb /\ UNCH_store /\ UNCH_pol /\ UNCH_chan /\ UNCH_ghost
     /\ UNCHANGED <<pol, proc, now, met>>
     /\ UNCH_kf
+    /\ UNCHANGED gh
 
 \* wait(): is_closed check, try_send of a marker, then block until it is released
 WaitSend(c) ==
@@ -446,6 +509,7 @@ WaitSend(c) ==
     /\ NoCb /\ UNCH_store /\ UNCH_pol /\ UNCH_life
     /\ UNCHANGED <<clearQ, stopQ, wdone, orphans, proc, now, met, accepted, owner, dropped, lost>>
     /\ UNCH_kf
+    /\ gh' = GhCall(gh)
 
 \* entering wg.wait(): returns at once if the marker was already released
 WaitBlock(c) ==
@@ -456,6 +520,7 @@ WaitBlock(c) ==
     /\ NoCb /\ UNCH_store /\ UNCH_pol /\ UNCH_life /\ UNCH_ghost
     /\ UNCHANGED <<buf, clearQ, stopQ, orphans, proc, now, met>>
     /\ UNCH_kf
+    /\ UNCHANGED gh
 
 WaitRet(c) ==
     /\ cli[c].pc = "waiting" /\ c \in wdone
@@ -464,6 +529,7 @@ WaitRet(c) ==
     /\ NoCb /\ UNCH_store /\ UNCH_pol /\ UNCH_life /\ UNCH_ghost
     /\ UNCHANGED <<buf, clearQ, stopQ, orphans, proc, now, met>>
     /\ UNCH_kf
+    /\ UNCHANGED gh
 
 \* update_max_cost: one atomic store
 SetMax(c, m) ==
@@ -473,6 +539,7 @@ SetMax(c, m) ==
     /\ NoCb /\ UNCH_store /\ UNCH_chan /\ UNCH_life /\ UNCH_ghost
     /\ UNCHANGED <<costs, used, proc, cli, now, met>>
     /\ UNCH_kf
+    /\ gh' = LET g == GhCall(gh) IN [g EXCEPT !.fits = g.fits /\ WantTotal(g.want) <= m]
 
 \* len() / max_cost(): pure reads
 Observe(c) ==
@@ -481,6 +548,7 @@ Observe(c) ==
     /\ NoCb /\ UNCH_store /\ UNCH_pol /\ UNCH_chan /\ UNCH_life /\ UNCH_ghost
     /\ UNCHANGED <<proc, cli, now, met>>
     /\ UNCH_kf
+    /\ gh' = GhCall(gh)
 
 ---------------------------------------------------------------------------
 \* PROCESSOR ACTIONS (one select! iteration is one or more of these)
@@ -511,10 +579,9 @@ PNewAdd(path, victims, added) ==
        IN
        /\ \/ /\ path = "oversize" /\ cost > maxCost /\ ~added /\ victims = <<>>
              /\ UNCHANGED <<costs, used, slack, met>>
+          \* already charged: the item will be rejected, the resident entry keeps its charge
           \/ /\ path = "present" /\ cost <= maxCost /\ costs[i] # Nil /\ ~added /\ victims = <<>>
-             /\ costs' = [costs EXCEPT ![i] = cost] /\ used' = used + cost - costs[i]
-             /\ slack' = Max2(0, slack + (cost - costs[i]))
-             /\ met' = [met EXCEPT !.keyUpd = @ + 1, !.costAdd = @ + (cost - costs[i])]
+             /\ UNCHANGED <<costs, used, slack, met>>
           \/ /\ path = "room" /\ cost <= maxCost /\ costs[i] = Nil /\ maxCost - (used + cost) >= 0
              /\ added /\ victims = <<>>
              /\ costs' = [costs EXCEPT ![i] = cost] /\ used' = used + cost /\ slack' = 0
@@ -535,6 +602,7 @@ PNewAdd(path, victims, added) ==
     /\ NoRes /\ NoCb /\ UNCH_store /\ UNCH_life /\ UNCH_ghost
     /\ UNCHANGED <<maxCost, clearQ, stopQ, wdone, orphans, cli, now>>
     /\ ProcRace
+    /\ gh' = IF path = "rejected" THEN [gh EXCEPT !.rejs = @ + 1] ELSE gh
 
 \* after policy.add: store.try_insert + track_admission, or on_reject
 PNewStore ==
@@ -563,6 +631,7 @@ PNewStore ==
     /\ NoRes /\ UNCH_pol /\ UNCH_chan /\ UNCH_life
     /\ UNCHANGED <<cli, now, accepted, owner, dropped, errSeen>>
     /\ ProcRace
+    /\ gh' = IF proc.added \/ proc.item.vc THEN gh ELSE [gh EXCEPT !.badcb = @ + 1]
 
 \* one victim: store.try_remove(key, 0) and on_evict with the cost the policy charged
 PVictim ==
@@ -579,6 +648,8 @@ PVictim ==
     /\ NoRes /\ UNCH_pol /\ UNCH_chan /\ UNCH_life /\ UNCH_ghost
     /\ UNCHANGED <<cli, now, met>>
     /\ ProcRace
+    /\ gh' = IF store[Head(proc.victims)[1]] # Nil
+              THEN [gh EXCEPT !.badcb = @ + 1, !.want[Head(proc.victims)[1]] = Nil] ELSE gh
 
 \* charged-cost update of a key (policy.update)
 PolicyUpdate(i, cost) ==
@@ -600,6 +671,7 @@ PUpd ==
     /\ NoRes /\ NoCb /\ UNCH_store /\ UNCH_life /\ UNCH_ghost
     /\ UNCHANGED <<maxCost, clearQ, stopQ, wdone, orphans, proc, cli, now>>
     /\ ProcRace
+    /\ UNCHANGED gh
 
 \* Delete marker, first section: store.try_remove(key, conflict)
 PDel ==
@@ -616,6 +688,7 @@ PDel ==
     /\ NoRes /\ NoCb /\ UNCH_pol /\ UNCH_life /\ UNCH_ghost
     /\ UNCHANGED <<clearQ, stopQ, wdone, orphans, cli, now, met>>
     /\ ProcRace
+    /\ UNCHANGED gh
 
 \* second section: the charge is released unless another key (same index, other conflict) is
 \* still resident; then on_exit for what the first section removed
@@ -629,6 +702,7 @@ PDelPolicy ==
     /\ NoRes /\ UNCH_store /\ UNCH_chan /\ UNCH_life /\ UNCH_ghost
     /\ UNCHANGED <<maxCost, cli, now>>
     /\ ProcRace
+    /\ UNCHANGED gh
 
 PWait ==
     /\ proc.pc = "idle" /\ buf # <<>> /\ Head(buf).t = "wait"
@@ -637,6 +711,7 @@ PWait ==
     /\ NoRes /\ NoCb /\ UNCH_store /\ UNCH_pol /\ UNCH_life /\ UNCH_ghost
     /\ UNCHANGED <<clearQ, stopQ, orphans, proc, cli, now, met>>
     /\ UNCH_kf
+    /\ UNCHANGED gh
 
 \* clear signal: the cleaner drains the buffer item by item without applying anything
 PClrTake ==
@@ -646,6 +721,7 @@ PClrTake ==
     /\ NoRes /\ NoCb /\ UNCH_store /\ UNCH_pol /\ UNCH_life /\ UNCH_ghost
     /\ UNCHANGED <<buf, stopQ, wdone, orphans, cli, now, met>>
     /\ UNCH_kf
+    /\ UNCHANGED gh
 
 PCleanItem ==
     /\ proc.pc = "cleaning" /\ buf # <<>>
@@ -656,6 +732,7 @@ PCleanItem ==
     /\ NoRes /\ UNCH_store /\ UNCH_pol /\ UNCH_life /\ UNCH_ghost
     /\ UNCHANGED <<clearQ, stopQ, orphans, proc, cli, now, met>>
     /\ UNCH_kf
+    /\ UNCHANGED gh
 
 PCleanEnd ==
     /\ proc.pc = "cleaning" /\ buf = <<>>
@@ -663,6 +740,7 @@ PCleanEnd ==
     /\ NoRes /\ NoCb /\ UNCH_store /\ UNCH_pol /\ UNCH_chan /\ UNCH_life /\ UNCH_ghost
     /\ UNCHANGED <<cli, now, met>>
     /\ UNCH_kf
+    /\ UNCHANGED gh
 
 \* cleanup tick: take every due bucket (number <= cleanup_bucket(now)); the processor then holds the
 \* set of their <<key, conflict>> entries and works through it in some order
@@ -675,6 +753,7 @@ PTick ==
     /\ NoRes /\ NoCb /\ UNCHANGED store /\ UNCH_pol /\ UNCH_chan /\ UNCH_life /\ UNCH_ghost
     /\ UNCHANGED <<cli, now, met>>
     /\ ProcRace
+    /\ UNCHANGED gh
 
 \* one key of the swept buckets: the store must agree that it has a TTL and that it has elapsed;
 \* then policy.cost, policy.remove, store.try_remove(key, conflict of the bucket entry)
@@ -701,6 +780,8 @@ PCleanupKey(i) ==
     /\ NoRes /\ NoCb /\ UNCH_chan /\ UNCH_life /\ UNCH_ghost
     /\ UNCHANGED <<maxCost, cli, now>>
     /\ ProcRace
+    /\ gh' = IF store[i] # Nil /\ Expired(store[i], now) /\ store'[i] = Nil
+              THEN [gh EXCEPT !.want[i] = Nil] ELSE gh
 
 \* the collected entries go to on_evict
 PCleanupDone ==
@@ -710,6 +791,7 @@ PCleanupDone ==
     /\ NoRes /\ UNCH_store /\ UNCH_pol /\ UNCH_chan /\ UNCH_life /\ UNCH_ghost
     /\ UNCHANGED <<cli, now, met>>
     /\ ProcRace
+    /\ UNCHANGED gh
 
 \* stop signal: the loop returns; receivers are dropped and with them everything still buffered
 BufWaits == { buf[j].w : j \in { jj \in 1 .. Len(buf) : buf[jj].t = "wait" } }
@@ -729,6 +811,7 @@ PStop(c) ==
     /\ buf' = <<>> /\ clearQ' = 0
     /\ NoRes /\ NoCb /\ UNCH_store /\ UNCH_pol /\ UNCH_life
     /\ UNCHANGED <<wdone, now, met, accepted, owner, lost, errSeen>>
+    /\ UNCHANGED gh
 
 \* the policy worker takes its stop signal (sync: rendezvous with closer c; async: from its slot)
 LStop(c) ==
@@ -743,6 +826,7 @@ LStop(c) ==
     /\ NoRes /\ NoCb /\ UNCH_store /\ UNCH_pol /\ UNCH_chan /\ UNCH_ghost
     /\ UNCHANGED <<closed, proc, now, met>>
     /\ UNCH_kf
+    /\ UNCHANGED gh
 
 \* the clock
 Advance(dt) ==
@@ -750,6 +834,7 @@ Advance(dt) ==
     /\ NoRes /\ NoCb /\ UNCH_store /\ UNCH_pol /\ UNCH_chan /\ UNCH_life /\ UNCH_ghost
     /\ UNCHANGED <<proc, cli, met>>
     /\ UNCH_kf
+    /\ UNCHANGED gh
 
 ---------------------------------------------------------------------------
 \* PROPERTIES
@@ -787,7 +872,26 @@ IndexExact ==
     /\ \A x \in em : store[x.i] # Nil /\ store[x.i].d > 0 /\ x.b = StorageBucket(store[x.i].at, store[x.i].d)
 \* C10
 NoOrphan == ("D6" \notin kf) => \A c \in Clients : cli[c].pc \in {"waiting", "wait_block"} => c \notin orphans
+\* C04: below capacity, with quiescence between calls, nothing is refused, evicted or lost
+NoLoss == (NoKF /\ gh.fits /\ gh.seqOK /\ Quiescent) =>
+    /\ gh.badcb = 0
+    /\ Resident = { i \in Idx : gh.want[i] # Nil }
+    /\ Resident \subseteq Charged
+\* C09: insert_if_present that returned false created nothing
+CondNeverCreates ==
+    \A v \in gh.condv : v \notin accepted /\ ResidentCount(v) = 0 /\ BufferedCount(v) = 0 /\ outcnt[v] = 0
+\* C11: nothing accepted before a clear() that has returned is resident at quiescence
+ClearEmpties == (NoKF /\ Quiescent) => \A i \in Resident : store[i].val \notin gh.cleared
+\* C16: with quiescence between writes, the charge of a resident entry is the one its insert asked for
+\* (indices that two distinct keys have been written under are left out: a colliding insert re-charges)
+SharedIndex(i) == \E v, w \in Val : owner[v] # Nil /\ owner[w] # Nil /\ owner[v][1] = i /\ owner[w][1] = i /\ owner[v][2] # owner[w][2]
+ChargeFormula == (NoKF /\ gh.seqOK /\ Quiescent /\ ~errSeen) =>
+    \A i \in Resident : (i \in Charged /\ ~SharedIndex(i)) => costs[i] = gh.vcost[store[i].val]
 \* C17
+MetricsCounts == (NoKF /\ Quiescent) =>
+    /\ met.hit + met.miss = gh.lookups
+    /\ met.dropSets = gh.drops
+    /\ met.rejectSets = gh.rejs
 MetricsLaws == (NoKF /\ Quiescent) =>
     /\ met.keyAdd - met.keyEvict = Cardinality(Charged)
     /\ met.costAdd - met.costEvict = used
